@@ -79,7 +79,8 @@ ExpectArgs(p) ==
           [] pc[p] = "poll_swap"    -> <<c, RxDone, RxProcessing>>
           [] pc[p] = "timer_poll"   -> <<c, 0, 0>>
           [] pc[p] = "release"      -> <<c, None, 0>>
-          [] pc[p] = "retry_set"    -> <<c, Sendable, 0>>
+          [] pc[p] = "retry_set"    -> IF Recheck THEN <<c, Sent, Sendable>> ELSE <<c, Sendable, 0>>
+          [] pc[p] = "recheck"      -> <<c, RxDone, RxProcessing>>
           [] pc[p] = "drop_fut"     -> <<c, None, 0>>
           [] pc[p] = "parse_buf"    -> <<c, 0, 5>>
           [] pc[p] = "rf_swap"      -> <<c, RxProcessing, None>>
@@ -97,6 +98,7 @@ ExpectArgs(p) ==
           [] OTHER -> <<-1, -1, -1>>
     ELSE IF p = RXP THEN
         CASE rxpc = "rx_scan"     -> <<rxScan, rxHand[2], 0>>
+          [] rxpc = "rx_scan_st"  -> <<rxScan, 0, 0>>
           [] rxpc = "rx_claim"    -> <<rxMatch, Sent, RxBusy>>
           [] rxpc = "rx_copy_buf" -> <<rxMatch, 1, 4>>
           [] rxpc = "rx_copy_end" -> <<rxMatch, 0, 0>>
